@@ -291,6 +291,9 @@ func (w *World) snapshot() []*op {
 	ops := append([]*op(nil), w.parked...)
 	w.mu.Unlock()
 	for _, o := range ops {
+		if o.kind == opRead && o.nth == 0 && o.ep != nil {
+			o.ep.readsParked++
+		}
 		if o.actor != "" && o.nth == 0 {
 			k := o.actor + "/" + o.kind.String()
 			w.opCount[k]++
@@ -366,8 +369,11 @@ func (w *World) Run() {
 		if now > w.MaxVirtual {
 			w.MaxVirtual = now
 		}
-		w.fireDue(now)
-		w.pollListeners(now)
+		if w.fireDue(now) {
+			// events start call goroutines and cancel contexts: quiesce again before looking at the
+			// parked operations, otherwise the decision races with the goroutines just made runnable
+			synctest.Wait()
+		}
 		if w.allDone() {
 			break
 		}
@@ -376,6 +382,8 @@ func (w *World) Run() {
 			break
 		}
 		ops := w.snapshot()
+		w.pollListeners(now)
+		w.fireDue(now) // a SYN-ACK injected with zero delay arrives at this very instant
 		// eager operations first
 		var eager *op
 		for _, o := range ops {
@@ -430,7 +438,7 @@ func (w *World) allDone() bool {
 	return true
 }
 
-func (w *World) fireDue(now time.Duration) {
+func (w *World) fireDue(now time.Duration) (woke bool) {
 	for w.events.Len() > 0 && w.events[0].at <= now {
 		e := heap.Pop(&w.events).(event)
 		switch e.kind {
@@ -443,12 +451,15 @@ func (w *World) fireDue(now time.Duration) {
 				w.Log.add(e.at, "c"+strconv.Itoa(e.call), "cancel", "")
 				w.stat("fault.cancel")
 				c.cancel()
+				woke = true
 			}
 		case "start":
 			w.startCall(e.call)
+			woke = true
 		case "wake":
 		}
 	}
+	return woke
 }
 
 // nextWake is the earliest instant at which something can change without a new park.
